@@ -21,6 +21,8 @@ pub enum Profile {
     Conserve, // C03: several non-registered buyers in the window, no manual SFL
     Reject,   // C04: borderline invalid rows
     Split,    // C15: histories with splits of terminating ratios
+    Costs,    // C17: several securities, several settlements per day, buy+sell everything in a day, long gaps
+    Totals,   // C06: several securities and years, trades straddling a year end, figures ending in half cents
     Opening,  // C16: always an opening position (zero / fractional shares, zero cost), other affiliates, global splits
 }
 
@@ -33,6 +35,8 @@ impl Profile {
             "reject" => Profile::Reject,
             "split" => Profile::Split,
             "opening" => Profile::Opening,
+            "costs" => Profile::Costs,
+            "totals" => Profile::Totals,
             _ => return None,
         })
     }
@@ -52,16 +56,19 @@ struct Hold {
 
 const GAPS_EDGE: [i64; 14] = [0, 0, 0, 1, 1, 2, 28, 29, 30, 30, 31, 31, 32, 3];
 const GAPS_WIDE: [i64; 10] = [0, 1, 2, 5, 9, 17, 29, 31, 45, 120];
+const GAPS_COSTS: [i64; 10] = [0, 0, 0, 0, 1, 1, 3, 40, 200, 400];
 
 pub fn gen_case(seed: u64, k: u64, profile: Profile) -> Case {
     let mut rng = StdRng::seed_from_u64(seed.wrapping_mul(0x9E37_79B9_7F4A_7C15).wrapping_add(k));
     let secs: Vec<&str> = match rng.gen_range(0..10) {
+        0..=6 if matches!(profile, Profile::Costs | Profile::Totals) => vec!["FOO", "BAR"],
         0..=6 => vec!["FOO"],
         7..=8 => vec!["FOO", "BAR"],
         _ => vec!["FOO", "BAR", "XYZ.TO"],
     };
     let af_pool: Vec<&str> = match profile {
         Profile::Conserve => vec!["", "Spouse", "Kid", "Default"],
+        Profile::Costs => vec!["", "Default", "Spouse", "(R)"],
         Profile::Sfl | Profile::Split => vec!["", "Spouse", "Spouse (R)", "(R)", "Default"],
         _ => vec!["", "Spouse", "spouse", "Kid (R)", "(R)", "Default", " Spouse  (r)"],
     };
@@ -96,14 +103,25 @@ pub fn gen_case(seed: u64, k: u64, profile: Profile) -> Case {
         let mut day: i64 = 16436 + rng.gen_range(0..3000); // 2015..2023
         let mut last_price = dec(rng.gen_range(100..20_000), 2);
         for _ in 0..n_rows {
-            let gaps: &[i64] = if matches!(profile, Profile::Arith) { &GAPS_WIDE } else { &GAPS_EDGE };
+            let gaps: &[i64] = match profile {
+                Profile::Arith | Profile::Totals => &GAPS_WIDE,
+                Profile::Costs => &GAPS_COSTS,
+                _ => &GAPS_EDGE,
+            };
             day += *gaps.choose(&mut rng).unwrap();
-            let af = *afs.choose(&mut rng).unwrap();
+            let mut straddle = false;
+            if profile == Profile::Totals && rng.gen_bool(0.2) {
+                // settle on Jan 2 of the next year, trade on Dec 30
+                let y = date_of(day).year();
+                day = day_of(time::Date::from_calendar_date(y + 1, time::Month::January, 2).unwrap());
+                straddle = true;
+            }
+            let af = if profile == Profile::Costs && rng.gen_bool(0.6) { "" } else { *afs.choose(&mut rng).unwrap() };
             let (afid, reg) = affiliate_id(af);
             let held = hold.sh.get(&afid).cloned().unwrap_or(Decimal::ZERO);
             let total: Decimal = hold.sh.values().cloned().sum();
             let roll = rng.gen_range(0..100);
-            let td = day - [0, 0, 1, 2, 3][rng.gen_range(0..5)];
+            let td = if straddle { day - 3 } else { day - [0, 0, 1, 2, 3][rng.gen_range(0..5)] };
             let mut row = Row {
                 sec: sec.to_string(),
                 td,
@@ -243,6 +261,8 @@ pub fn profile_name(p: Profile) -> &'static str {
         Profile::Reject => "reject",
         Profile::Split => "split",
         Profile::Opening => "opening",
+        Profile::Costs => "costs",
+        Profile::Totals => "totals",
     }
 }
 
@@ -276,6 +296,7 @@ fn pick_shares(rng: &mut StdRng, fractional: bool) -> Decimal {
 
 fn pick_sell(rng: &mut StdRng, held: Decimal, profile: Profile) -> Decimal {
     match rng.gen_range(0..10) {
+        0..=5 if profile == Profile::Costs => held,
         0..=2 => held,
         3..=4 => (held / dec(2, 0)).round_dp(4).max(dec(1, 4)).min(held),
         5..=6 => (held / dec(3, 0)).round_dp(2).max(dec(1, 2)).min(held),
@@ -318,6 +339,18 @@ fn set_money(rng: &mut StdRng, row: &mut Row, profile: Profile) {
                 row.ccur = "USD".into();
                 row.rc = num(dec(rng.gen_range(11000..14500), 4));
             }
+        }
+    }
+    if profile == Profile::Totals && rng.gen_bool(0.4) {
+        // figures whose third decimal is 5: display rounding must go away from zero
+        let p = row.p.dec().unwrap().round_dp(2);
+        row.p = num(p + dec(5, 3));
+        row.cur = String::new();
+        row.r = Num::default();
+        row.ccur = String::new();
+        row.rc = Num::default();
+        if row.act.to_lowercase() == "buy" {
+            row.q = num(dec([1, 3, 7, 11][rng.gen_range(0..4)], 0));
         }
     }
     if profile == Profile::Arith && rng.gen_bool(0.15) {
